@@ -6,6 +6,7 @@ import (
 	"io"
 	"math"
 	rtrace "runtime/trace"
+	"strings"
 	"sync"
 	"testing"
 	"time"
@@ -69,6 +70,49 @@ type PipeCase struct {
 	// ExecTrace: the Go execution tracer (runtime/trace) runs while the
 	// program does; the SDK then attaches a runtime/trace task to every span.
 	ExecTrace bool `json:"exec_trace,omitempty"`
+	// EnvSampler: the sampler tree (which must be one of always, never,
+	// ratio, parent{root: always|never|ratio} without options) is configured
+	// through OTEL_TRACES_SAMPLER / OTEL_TRACES_SAMPLER_ARG instead of
+	// WithSampler. EnvArg is the argument text (ratio trees only); the ratio it
+	// denotes replaces the tree's ratio in the reference.
+	EnvSampler   bool   `json:"env_sampler,omitempty"`
+	EnvNameStyle int    `json:"env_name_style,omitempty"`
+	EnvArg       string `json:"env_arg,omitempty"`
+}
+
+// expressible reports the environment name of a sampler tree and the ratio
+// node the argument belongs to (nil when the name takes no argument).
+func expressible(n *Node) (base string, ratio *Node, ok bool) {
+	leaf := func(m *Node) (string, *Node, bool) {
+		switch m.Kind {
+		case "always":
+			return "always_on", nil, true
+		case "never":
+			return "always_off", nil, true
+		case "ratio":
+			return "traceidratio", m, true
+		}
+		return "", nil, false
+	}
+	if n.Kind == "parent" {
+		if n.Root == nil || n.RS != nil || n.RN != nil || n.LS != nil || n.LN != nil {
+			return "", nil, false
+		}
+		b, r, ok := leaf(n.Root)
+		return "parentbased_" + b, r, ok
+	}
+	return leaf(n)
+}
+
+func genExpressible(t *rapid.T) Node {
+	leaf := Node{Kind: rapid.SampledFrom([]string{"ratio", "ratio", "ratio", "always", "never"}).Draw(t, "env_leaf")}
+	if leaf.Kind == "ratio" {
+		leaf.Ratio = vk.F64(genEnvRatio(t, "env_ratio"))
+	}
+	if rapid.Bool().Draw(t, "env_parentbased") {
+		return Node{Kind: "parent", Root: &leaf}
+	}
+	return leaf
 }
 
 // ---------------------------------------------------------------------
@@ -144,7 +188,27 @@ func genStartFields(t *rapid.T, s *Step) {
 
 func genPipe(t *rapid.T) PipeCase {
 	c := PipeCase{}
-	c.Sampler = genNode(t, 0, true)
+	envPref := rapid.IntRange(0, 5).Draw(t, "env_pref") == 5
+	if envPref {
+		c.Sampler = genExpressible(t)
+	} else {
+		c.Sampler = genNode(t, 0, true)
+	}
+	if _, rn, ok := expressible(&c.Sampler); ok && (envPref || rapid.Bool().Draw(t, "env_sampler")) {
+		c.EnvSampler = true
+		c.EnvNameStyle = genNameStyle(t, "env_name_style")
+		if rn != nil {
+			r := float64(rn.Ratio)
+			switch {
+			case math.IsNaN(r) || math.IsInf(r, 0):
+				c.EnvArg = rapid.SampledFrom(notAssertedArgs).Draw(t, "env_other_arg")
+			case rapid.IntRange(0, 15).Draw(t, "env_outside_domain") == 15:
+				c.EnvArg = rapid.SampledFrom(notAssertedArgs).Draw(t, "env_other_arg")
+			default:
+				c.EnvArg = genRatioText(t, r, "env_arg") // out-of-range ratios of the tree stay out of range
+			}
+		}
+	}
 	c.SeqIDs = rapid.IntRange(0, 9).Draw(t, "seq_ids") < 6
 	c.TIDSeed = rapid.Uint64().Draw(t, "tid_seed")
 	c.SIDSeed = rapid.Uint64().Draw(t, "sid_seed")
@@ -506,9 +570,47 @@ func runPipe(c PipeCase) ([]vk.Violation, vk.Info) {
 	exp := &memExporter{}
 	opts := []sdktrace.TracerProviderOption{sdktrace.WithResource(resource.Empty())}
 	var top *cnode
+	// envMode: the provider reads its sampler from the environment; the
+	// compiled tree is then only the REFERENCE (asked by the harness about
+	// every started span) and is not installed.
+	envMode, envAsserted, envHow, envName := false, false, "", ""
+	var envArg *string
+	samplerTree := c.Sampler
+	if c.EnvSampler {
+		if base, rn, ok := expressible(&c.Sampler); ok {
+			envMode, envAsserted = true, true
+			envName = styleName(base, c.EnvNameStyle)
+			envHow = fmt.Sprintf("%s=%q", envSamplerKey, envName)
+			if rn != nil {
+				a := c.EnvArg
+				envArg = &a
+				envHow += fmt.Sprintf(" %s=%q", envSamplerArgKey, a)
+				if v, ok := denotedRatio(a); ok {
+					// the reference uses the ratio the text denotes
+					leaf := Node{Kind: "ratio", Ratio: vk.F64(v)}
+					if samplerTree.Kind == "parent" {
+						samplerTree = Node{Kind: "parent", Root: &leaf}
+					} else {
+						samplerTree = leaf
+					}
+					envHow += fmt.Sprintf(" (denotes %v)", v)
+					info.ClassIf(v == 0, "env:ratio_zero")
+					info.ClassIf(v == 1, "env:ratio_one")
+					info.ClassIf(v > 0 && v < 1, "env:ratio_interior")
+				} else {
+					envAsserted = false // unparsable / NaN / outside [0,1]: C20's business
+				}
+			}
+			info.Class("env:" + base)
+			info.ClassIf(!envAsserted, "env:arg_outside_domain(no panic only)")
+			info.ClassIf(envName != base || (envArg != nil && strings.TrimSpace(*envArg) != *envArg), "env:blanks_or_case_in_spelling")
+		}
+	}
 	if c.Sampler.Kind != "default" {
-		top = r.compile(&c.Sampler)
-		opts = append(opts, sdktrace.WithSampler(top.sampler))
+		top = r.compile(&samplerTree)
+		if !envMode {
+			opts = append(opts, sdktrace.WithSampler(top.sampler))
+		}
 	}
 	switch {
 	case c.Batch == 1:
@@ -523,7 +625,14 @@ func runPipe(c PipeCase) ([]vk.Violation, vk.Info) {
 	if c.SeqIDs {
 		opts = append(opts, sdktrace.WithIDGenerator(&seqGen{tidSeed: c.TIDSeed, sidSeed: c.SIDSeed}))
 	}
-	tp := sdktrace.NewTracerProvider(opts...)
+	var tp *sdktrace.TracerProvider
+	if envMode {
+		if reported := withSamplerEnv(envName, envArg, func() { tp = sdktrace.NewTracerProvider(opts...) }); len(reported) > 0 {
+			envHow += fmt.Sprintf(" (SDK reported %q)", reported)
+		}
+	} else {
+		tp = sdktrace.NewTracerProvider(opts...)
+	}
 	defer func() { _ = tp.Shutdown(context.Background()) }()
 	tracer := tp.Tracer("c09")
 	ends := 0
@@ -629,8 +738,21 @@ func runPipe(c PipeCase) ([]vk.Violation, vk.Info) {
 
 		logBefore := len(r.log)
 		sctx, span := tracer.Start(ctx, st.Name, so...)
-		seg := r.log[logBefore:]
 		sc := span.SpanContext()
+		if envMode {
+			// ask the reference tree what the configured sampler has to
+			// answer for this span (same parent, the span's trace ID)
+			pctx := ctx
+			if st.NewRoot {
+				pctx = trace.ContextWithSpanContext(ctx, trace.SpanContext{})
+			}
+			cfg := trace.NewSpanStartConfig(so...)
+			_ = top.sampler.ShouldSample(sdktrace.SamplingParameters{
+				ParentContext: pctx, TraceID: sc.TraceID(), Name: st.Name,
+				Kind: cfg.SpanKind(), Attributes: cfg.Attributes(), Links: cfg.Links(),
+			})
+		}
+		seg := r.log[logBefore:]
 		rec := &spanRec{span: span, ctx: sctx, sc: sc, psc: psc, decision: -1, depth: depth}
 		spans = append(spans, rec)
 
@@ -638,6 +760,9 @@ func runPipe(c PipeCase) ([]vk.Violation, vk.Info) {
 		halfValid := pTIDValid && psc.SpanID() == (trace.SpanID{})
 		pValid := scValid(psc)
 		where := fmt.Sprintf("step %d (%s, %s)", si, st.Op, describeParent(inCtx, st.NewRoot))
+		if envMode {
+			where += " [sampler from the environment: " + envHow + "; \"sampler answered\" = the reference sampler it denotes]"
+		}
 
 		// ---- identity ----
 		if sc.SpanID() == (trace.SpanID{}) {
@@ -681,7 +806,11 @@ func runPipe(c PipeCase) ([]vk.Violation, vk.Info) {
 			if ncalls != 1 {
 				bad("sampler_call_count", "%s: the provider's sampler was called %d times for one Start", where, ncalls)
 			}
-			if ncalls >= 1 {
+			if envMode && ncalls >= 1 {
+				// not observed but derived: keep to what the statement fixes
+				haveResult = envAsserted && !(halfValid && samplerTree.Kind == "parent")
+				haveTS = haveResult && pValid
+			} else if ncalls >= 1 {
 				haveResult, haveTS = true, true
 				last := seg[len(seg)-1]
 				if last.p.TraceID != tid {
@@ -864,6 +993,7 @@ func runPipe(c PipeCase) ([]vk.Violation, vk.Info) {
 	info.ClassIf(!c.SeqIDs, "idgen:default_random")
 	info.ClassIf(c.Sampler.Kind == "parent" && c.Sampler.RS == nil && c.Sampler.RN == nil && c.Sampler.LS == nil && c.Sampler.LN == nil, "top:parent_without_options")
 	info.ClassIf(hasEdge && mixed, "tree_with_mixed_decisions")
+	info.ClassIf(envMode, "env:sampler_from_environment")
 	return vs, info
 }
 
@@ -915,7 +1045,7 @@ func checkSamplerAttrs(have, supplied []attribute.KeyValue, report func(string))
 func TestPipeline(t *testing.T) {
 	vk.Run(t, vk.Spec[PipeCase]{
 		Property: "C09", Check: "pipeline",
-		Rule: "a sampler from the grammar {AlwaysSample, NeverSample, TraceIDRatioBased(r), ParentBased(root, 0..4 options, nested to depth 2), Scripted(Drop/RecordOnly/RecordAndSample + attributes + parent/replaced/empty tracestate), none configured}, every node behind a recording decorator; " +
+		Rule: "a sampler from the grammar {AlwaysSample, NeverSample, TraceIDRatioBased(r), ParentBased(root, 0..4 options, nested to depth 2), Scripted(Drop/RecordOnly/RecordAndSample + attributes + parent/replaced/empty tracestate), none configured}, every node behind a recording decorator; trees expressible as OTEL_TRACES_SAMPLER (always_on, always_off, traceidratio, parentbased_*) are, in about half of their cases, configured through the environment instead of WithSampler (ratio spelled in 'g'/'f'/'e' forms, signs, leading zeros, blanks; name in any letter case) and judged against the programmatic tree for the denoted ratio; " +
 			"a program of 1..40 steps {start root, start child of a started span, start under a supplied span context (remote or local, valid / zero trace ID / zero span ID, sampled or not, extra flag bits, tracestate), each optionally WithNewRoot, end a span}; simple processor, WithSyncer, or BatchSpanProcessor (blocking or not, flushed by the harness before every look at the exporter) + in-memory exporter; default or custom sequential ID generator; " +
 			"non-trivial = some span is the child of a started span and at least two different sampling decisions occur; distinct = distinct case encodings",
 		Quick: 2000, Thorough: 100000,
